@@ -158,6 +158,15 @@ def gen_program(g, length):
             prog.append({"op": "shares", "a": d, "b": src})
             arrays.append(d)
             meta[d] = (meta.get(src, ("f8", [n]))[0], None)
+            if ix.get("k") == "slice" and ix.get("c") not in (None, 1) and d not in ro and meta[d][0] == "f8" and r.random() < 0.6:
+                # a strided (non-contiguous) view updated in place twice: it must stay a view of the same buffer, the parent
+                # sees both updates and a later update of the parent shows through the view
+                for _ in range(2):
+                    prog.append({"op": "bin", "dst": d, "name": "mul", "a": d, "inplace": True,
+                                 "rhs": {"k": "val", "py": "num", "v": g.arr([], "i8", "", small=True, values=[Fraction(r.choice([2, 4, -1, -2]))])}})
+                    prog.append({"op": "shares", "a": d, "b": src})
+                prog.append({"op": "obs", "v": src})
+                prog.append({"op": "obs", "v": d})
         elif k < 0.74:
             prog.append({"op": "dg_set", "g": r.choice(groups), "key": r.choice(KEYS), "v": r.choice(arrays + vectors)})
         elif k < 0.80:
